@@ -253,7 +253,7 @@ def run(repo, rep, tier):
     from ..builder import structural_missing
     for c in prims:
         m = models[c.name]
-        if not m.structural:
+        if not m.structural and not m.template:
             continue
         f = repo.own_method(c, "__mul__")
         dict_fields = [s2 for s2, k in m.slot_kind.items() if k == "dict"] + (["values"] if m.name == "Bag" else [])
